@@ -1012,6 +1012,25 @@ static void register_training() {
               PP(return show(F::parameter_tensor(p));)),
       verdict(CC(primitivNode_t *y = nullptr; PRIMITIV_C_STATUS st = primitivApplyNodeParameter(c(&p), c(g), &y); fin(st, y, out); return st;),
               PP(return show(F::parameter_node(p, g));))}); });
+  reg("primitivGetParameterStats", [](Env &E, Args &A) -> std::string {
+    // S T s:name : the lookup of a name that was never added ends in std::map::at -> std::out_of_range, which is
+    // not a primitiv::Error: it must come back as PRIMITIV_C_ERROR with the what() of that exception
+    Parameter p(A.sh(0), A.t(0).v, E.dev);
+    p.add_stats("present", Shape({2}));
+    const Parameter &kp = p;
+    const std::string &nm = A.s(0);
+    bool is_error_class = false, threw = false;
+    try { kp.stats(nm); } catch (const Error &) { threw = is_error_class = true; } catch (const std::exception &) { threw = true; }
+    std::string r = verdict(CC(const primitivTensor_t *t = nullptr; PRIMITIV_C_STATUS st = primitivGetParameterStats(c(&p), nm.c_str(), &t);
+                               if (st == OKST) out = show(*cpp(t)); else if (get_message().empty()) out = "empty-message"; return st;),
+                            PP(return show(kp.stats(nm));));
+    if (threw && !is_error_class && r == "ok same error") {
+      // and the status machine treats it like any other failure
+      std::string m = get_message();
+      std::uint32_t v = 0;
+      if (primitivGetShapeVolume(c(&A.sh(0)), &v) != OKST || get_message() != m) return "diff message lost after a succeeding call";
+    }
+    return r; });
   reg("primitivSaveParameter", [](Env &E, Args &A) -> std::string {
     // S T with_stats devsel [-7 = invalid parameter]: save through both, compare the bytes; load each other's file
     bool iv = A.n.size() && A.n.back() == -7;
@@ -1152,8 +1171,18 @@ static void register_training() {
                                     : (with_seed ? static_cast<Device *>(new devices::Naive(seed)) : static_cast<Device *>(new devices::Naive())));
     if (with_seed) {
       Shape s({2, 3});
-      obs.push_back(verdict(CC(primitivTensor_t *y = nullptr; PRIMITIV_C_STATUS s2 = primitivApplyTensorRandomUniform(c(&s), -1, 1, d, &y); fin(s2, y, out); return s2;),
+      std::string first;
+      obs.push_back(verdict(CC(primitivTensor_t *y = nullptr; PRIMITIV_C_STATUS s2 = primitivApplyTensorRandomUniform(c(&s), -1, 1, d, &y); fin(s2, y, out); first = out; return s2;),
                             PP(return show(F::random::uniform_tensor(s, -1, 1, p.get()));)));
+      obs.push_back(verdict(CC(primitivTensor_t *y = nullptr; PRIMITIV_C_STATUS s2 = primitivApplyTensorRandomNormal(c(&s), 0, 1, d, &y); fin(s2, y, out); return s2;),
+                            PP(return show(F::random::normal_tensor(s, 0, 1, p.get()));)));
+      // a second device created through C with the same seed draws the same numbers
+      primitivDevice_t *d2 = nullptr;
+      PRIMITIV_C_STATUS st2 = eigen ? primitivCreateEigenDeviceWithSeed(seed, &d2) : primitivCreateNaiveDeviceWithSeed(seed, &d2);
+      if (st2 != OKST || !d2) return "diff second device not created: " + get_message();
+      obs.push_back(verdict(CC(primitivTensor_t *y = nullptr; PRIMITIV_C_STATUS s2 = primitivApplyTensorRandomUniform(c(&s), -1, 1, d2, &y); fin(s2, y, out); return s2;),
+                            PP(return first;)));
+      obs.push_back(verdict(CC(return primitivDeleteDevice(d2);), PP(return "";)));
     }
     obs.push_back(verdict(CC(PRIMITIV_C_STATUS s2 = primitivSetDefaultDevice(d); out = &Device::get_default() == cpp(d) ? "set" : "?"; return s2;), PP(return "set";)));
     obs.push_back(verdict(CC(primitivDevice_t *r = nullptr; PRIMITIV_C_STATUS s2 = primitivGetDefaultDevice(&r); out = r == d ? "got" : "?"; return s2;), PP(return "got";)));
@@ -1189,13 +1218,19 @@ template <class T> static std::string bytes_of(const std::vector<T> &v) {
   return std::string(reinterpret_cast<const char *>(v.data()), v.size() * sizeof(T));
 }
 
-static bool make_sizeq(const std::string &fn, World &w, SizeQ &q) {
+// `spec` (optional): the tensor / node / shape the query is made on; `dim`: the axis of argmax / argmin
+static bool make_sizeq(const std::string &fn, World &w, SizeQ &q, const TSpec *spec, std::uint32_t dim) {
+  if (spec) {
+    w.shp[0] = spec->s;
+    w.ten[0] = F::input<Tensor>(spec->s, spec->v, w.dev);
+    w.nod[0] = F::input_node(spec->s, spec->v, &w.dev, &w.g);
+  }
   if (fn == "primitivGetMessage") {
     primitivResetStatus();
     q.elem = 1; q.expected = std::string("OK") + '\0'; q.len = 2;
     q.call = [](void *b, std::size_t *n) { return primitivGetMessage(static_cast<char *>(b), n); };
   } else if (fn == "primitivGetShapeDims") {
-    Shape *s = new Shape({2, 3, 4}); w.shp[0] = *s; delete s;
+    if (!spec) w.shp[0] = Shape({2, 3, 4});
     q.elem = 4; q.expected = bytes_of(w.shp[0].dims()); q.len = w.shp[0].dims().size();
     q.call = [&w](void *b, std::size_t *n) { return primitivGetShapeDims(c(&w.shp[0]), static_cast<std::uint32_t *>(b), n); };
   } else if (fn == "primitivRepresentShapeAsString") {
@@ -1203,25 +1238,27 @@ static bool make_sizeq(const std::string &fn, World &w, SizeQ &q) {
     q.elem = 1; q.expected = t + '\0'; q.len = t.size();
     q.call = [&w](void *b, std::size_t *n) { return primitivRepresentShapeAsString(c(&w.shp[0]), static_cast<char *>(b), n); };
   } else if (fn == "primitivEvaluateTensorAsArray") {
-    q.elem = 4; q.expected = bytes_of(w.ten[0].to_vector()); q.len = 4;
+    q.elem = 4; q.expected = bytes_of(w.ten[0].to_vector()); q.len = w.ten[0].shape().size();
     q.call = [&w](void *b, std::size_t *n) { return primitivEvaluateTensorAsArray(c(&w.ten[0]), static_cast<float *>(b), n); };
   } else if (fn == "primitivGetTensorArgmax" || fn == "primitivGetTensorArgmin") {
     bool mx = fn == "primitivGetTensorArgmax";
-    std::vector<std::uint32_t> v = mx ? w.ten[0].argmax(0) : w.ten[0].argmin(0);
+    std::uint32_t td = spec ? dim : 0;
+    std::vector<std::uint32_t> v = mx ? w.ten[0].argmax(td) : w.ten[0].argmin(td);
     q.elem = 4; q.expected = bytes_of(v); q.len = v.size();
-    q.call = [&w, mx](void *b, std::size_t *n) {
-      return mx ? primitivGetTensorArgmax(c(&w.ten[0]), 0, static_cast<std::uint32_t *>(b), n)
-                : primitivGetTensorArgmin(c(&w.ten[0]), 0, static_cast<std::uint32_t *>(b), n); };
+    q.call = [&w, mx, td](void *b, std::size_t *n) {
+      return mx ? primitivGetTensorArgmax(c(&w.ten[0]), td, static_cast<std::uint32_t *>(b), n)
+                : primitivGetTensorArgmin(c(&w.ten[0]), td, static_cast<std::uint32_t *>(b), n); };
   } else if (fn == "primitivEvaluateNodeAsArray") {
-    q.elem = 4; q.expected = bytes_of(w.nod[0].to_vector()); q.len = 4;
+    q.elem = 4; q.expected = bytes_of(w.nod[0].to_vector()); q.len = w.nod[0].shape().size();
     q.call = [&w](void *b, std::size_t *n) { return primitivEvaluateNodeAsArray(c(&w.nod[0]), static_cast<float *>(b), n); };
   } else if (fn == "primitivGetNodeArgmax" || fn == "primitivGetNodeArgmin") {
     bool mx = fn == "primitivGetNodeArgmax";
-    std::vector<std::uint32_t> v = mx ? w.nod[0].argmax(1) : w.nod[0].argmin(1);
+    std::uint32_t nd = spec ? dim : 1;
+    std::vector<std::uint32_t> v = mx ? w.nod[0].argmax(nd) : w.nod[0].argmin(nd);
     q.elem = 4; q.expected = bytes_of(v); q.len = v.size();
-    q.call = [&w, mx](void *b, std::size_t *n) {
-      return mx ? primitivGetNodeArgmax(c(&w.nod[0]), 1, static_cast<std::uint32_t *>(b), n)
-                : primitivGetNodeArgmin(c(&w.nod[0]), 1, static_cast<std::uint32_t *>(b), n); };
+    q.call = [&w, mx, nd](void *b, std::size_t *n) {
+      return mx ? primitivGetNodeArgmax(c(&w.nod[0]), nd, static_cast<std::uint32_t *>(b), n)
+                : primitivGetNodeArgmin(c(&w.nod[0]), nd, static_cast<std::uint32_t *>(b), n); };
   } else if (fn == "primitivDumpGraph") {
     std::string t = w.g.dump("dot");
     q.elem = 1; q.expected = t + '\0'; q.len = t.size();
@@ -1235,11 +1272,19 @@ static bool make_sizeq(const std::string &fn, World &w, SizeQ &q) {
 static std::string do_sizeq(const std::vector<std::string> &wd) {
   World w;
   SizeQ q;
-  if (wd[0] == "sizeq0") {
-    if (wd.size() != 2 || !make_sizeq(wd[1], w, q)) throw BadOp();
-    return "ok " + std::to_string(q.len);
+  std::size_t fixed = wd[0] == "sizeq0" ? 2 : 4;
+  if (wd.size() != fixed && wd.size() != fixed + 2) throw BadOp();
+  TSpec spec;
+  std::uint32_t dim = 0;
+  bool has_spec = wd.size() == fixed + 2;
+  if (has_spec) {
+    Args A = parse_args(wd, fixed);
+    if (A.T.size() != 1 || A.n.size() != 1) throw BadOp();
+    spec = A.T[0];
+    dim = A.u(0);
   }
-  if (wd.size() != 4 || !make_sizeq(wd[1], w, q)) throw BadOp();
+  if (!make_sizeq(wd[1], w, q, has_spec ? &spec : nullptr, dim)) throw BadOp();
+  if (wd[0] == "sizeq0") return "ok " + std::to_string(q.len);
   std::size_t len = vh::to_u64(wd[2]);
   if (len != q.len) return "bad-len " + std::to_string(q.len);
   if (wd[3] == "null") {
